@@ -1,7 +1,9 @@
 (* Properties/C10.v — statements only.  "The EVM computes what the reference EVM semantics prescribe" (partial scope, see
-   manifest.d/C10.json): the reference semantics of the active instruction set is EVM.Model (tied to /repo/vm on every run
-   by the correspondence harness); for the ALU an independent mathematical definition (Word.v, m_alu) is given and the
-   interpreter's ALU (i_alu, transcribed from instructions.go + holiman/uint256) is proved equal to it on all operands. *)
+   manifest.d/C10.json).  Independent references inside Coq: the mathematical ALU (Word.v, m_alu), the declarative gas pieces
+   (GasSpec.v) and the Yellow-Paper semantics of a fragment (RefSpec.v: stack / flow / memory / storage / environment reads, no
+   calls, copies, logs); the interpreter model EVM.Model (transcribed from /repo/vm and tied to it on every run by the
+   correspondence harness) is proved to refine them for FRAGMENT-ONLY executions.  For everything else the model itself is the
+   reference and the clause is correspondence-only.  failed_* theorems hold by construction of the model (see section 3). *)
 From Coq Require Import ZArith List Bool Lia.
 From Verif Require Import EVM.Word EVM.ProofsALU EVM.Model EVM.ProofsRun EVM.GasSpec EVM.ProofsGas
   EVM.RefSpec EVM.ProofsRef EVM.Journal EVM.ProofsJournal.
@@ -120,12 +122,40 @@ Qed.
       destinations D(c) as inductively defined instruction positions, the fee schedule by W-classes + C_mem + the SSTORE
       schedule + EXP, the ALU by its mathematical definition, storage/refund effects extensionally) for the core fragment
       STOP / ALU / POP / PUSH / DUP / SWAP / JUMP / JUMPI / JUMPDEST / PC / GAS / MSIZE / MLOAD / MSTORE / MSTORE8 / SLOAD / SSTORE /
-      RETURN / REVERT / invalid opcodes: every finished run of the interpreter model is a run of the reference with the same
-      result class, return data, gas left and world; the reference is silent only if the code contains an instruction
-      outside the fragment.  (Shared, not independent: opcode table, byte layout of memory words / PUSH operands, SWAP.) *)
+      RETURN / REVERT / invalid opcodes / the environment reads (ADDRESS ORIGIN CALLER CALLVALUE CALLDATASIZE CALLDATALOAD
+      CODESIZE GASPRICE RETURNDATASIZE COINBASE TIMESTAMP NUMBER DIFFICULTY GASLIMIT CHAINID BASEFEE): a finished run of the
+      interpreter model that stays inside the fragment is a run of the reference with the same result class, return data,
+      gas left and world; at the first instruction outside the fragment the reference stops silent (RR_outside).  (Shared, not independent: opcode table, byte layout of memory words / PUSH operands, SWAP.) *)
 Theorem run_refines_reference fuel E cx s : cwf cx -> rinv s -> r_out (run fuel E cx s) <> O_fuel ->
-  exists rr, ref_run E cx s rr /\ res_matches (run fuel E cx s) rr /\ (rr = RR_outside -> leaves_fragment E cx).
+  exists rr, ref_run E cx s rr /\ res_matches (run fuel E cx s) rr /\
+             (forall pc i, rr = RR_outside pc i -> leaves_fragment E cx).
 Proof. exact (ProofsRef.run_refines_reference fuel E cx s). Qed.
+
+(* what this does NOT say: the statement is about executions that stay inside the fragment.  From the first instruction
+   outside it (RR_outside pc i names the pc and the instruction; by the definition of ref_step it decodes at that pc and is not
+   in the fragment) res_matches is True, i.e. nothing is claimed about that run.  For RR_fail only the class is claimed at
+   frame level (a failing frame's gas and world are discarded by its caller); the caller-level statement is the next theorem. *)
+Theorem outside_names_the_instruction E cx s pc i : ref_step E cx s (RS_stop (RR_outside pc i)) ->
+  pc = s_pc s /\ decode_at (e_fork E) (fetch cx s) = Some i /\ in_fragment i = false.
+Proof. intros H. inversion H; subst. repeat split; assumption. Qed.
+
+(* lifted to the entry call (runtime clause -> evm.Call): when the call reaches the interpreter, the result the caller sees is
+   the reference's — success: the frame's data, gas and world; REVERT: data and gas, entry world; exceptional halt: no data, no
+   gas, entry world.  Premise zlen code < 2^64 is not derived (deployed code is at most 24576 bytes, init code is bounded by
+   memory gas). *)
+Theorem call_top_refines_reference fuel E static to v input gas w :
+  let w1 := transfer w (e_origin E) to v in
+  let code := code_of w1 to in
+  let cx0 := mkCtx to (e_origin E) v code (zlen code) input static 1 in
+  let s0 := mkSt 0 [] [] 0 gas [] w1 0 in
+  (negb (v =? 0) && (balance w (e_origin E) <? v)) = false ->
+  precompile E to = false ->
+  (negb (exists_acct w to) && (v =? 0)) = false ->
+  code <> [] -> zlen code < W64 -> 0 <= gas ->
+  r_out (call_top fuel E static to v input gas w) <> O_fuel ->
+  exists rr, ref_run E cx0 s0 rr /\ call_matches w (call_top fuel E static to v input gas w) rr /\
+             (forall pc i, rr = RR_outside pc i -> leaves_fragment E cx0).
+Proof. exact (ProofsRef.call_top_refines_reference fuel E static to v input gas w). Qed.
 
 (* the model's jump-destination analysis (a scan with a skip counter; the Go code uses a bit vector) decides exactly D(c) *)
 Theorem jumpdest_analysis_matches_spec cx d : c_codelen cx = zlen (c_code cx) -> zlen (c_code cx) < W64 -> 0 <= d ->
@@ -219,6 +249,16 @@ Proof.
   vm_compute. repeat split; reflexivity.
 Qed.
 
+(* a Solidity-dispatcher-like prologue is inside the fragment now: CALLVALUE ISZERO JUMPI(ok) REVERT | JUMPDEST CALLDATASIZE
+   PUSH0 CALLDATALOAD CALLER ... : every byte decodes inside the fragment, the run ends ok, and the entry-call lift applies *)
+Definition exD : list Z := [52;21;96;8;87; 95;95;253; 91; 54;95;53;51;1;1; 95;82; 96;31;96;1;243].
+Example dispatcher_inside_fragment :
+  let w := mkWorld [(10, mkAcc 0 exD false); (99, mkAcc 5 [] false)] [] [] 0 [] [] in
+  forallb (fun b => match decode_at 3 b with Some i => in_fragment i | None => true end) (0 :: exD) = true /\
+  r_out (call_top 100 exE false 10 0 [1;2;3] 50000 w) = O_ok /\
+  precompile exE 10 = false /\ code_of (transfer w 99 10 0) 10 <> [] /\ zlen exD < W64.
+Proof. vm_compute. repeat split; try reflexivity; discriminate. Qed.
+
 (* alu_step_matches_math and frame_terminates_within_gas: their hypotheses hold in a concrete running frame *)
 Example alu_step_nonvacuous :
   let s := mkSt 9 [W - 1; 2; 7] [] 0 50 [] (exW exF) 0 in
@@ -272,6 +312,8 @@ Print Assumptions call_gas_unaffordable.
 Print Assumptions call_step_affordable.
 Print Assumptions frame_entry_invariants.
 Print Assumptions run_refines_reference.
+Print Assumptions outside_names_the_instruction.
+Print Assumptions call_top_refines_reference.
 Print Assumptions jumpdest_analysis_matches_spec.
 Print Assumptions revert_to_snapshot_restores.
 Print Assumptions frame_keeps_lower_levels.
